@@ -71,6 +71,15 @@ NASTY = [
 ]
 
 
+def closure_chain(k):
+    """k local functions, each handing the previous one to a higher-order function (every read of a function value
+    copies its type; up to /repo 3c0758d the copy doubled per level)"""
+    return ("print: fn *X -> void : external\nf6 :: fn q: fn int -> int, p: int -> int do\n  q(p) + p\nend\n"
+            "start :: fn do\n  m := 1\n  l0 :: fn p: int -> int do\n    m = p\n    m + 1\n  end\n"
+            + "".join("  l%d :: fn p: int -> int do\n    m += p\n    f6(l%d, m)\n  end\n" % (i, i - 1) for i in range(1, k + 1))
+            + "  print(f6(l%d, m))\nend\n" % k)
+
+
 def _nested_calls(d, err=False):
     lines = ["f :: fn g do", "end", "start :: fn do"]
     lines += ["  " * (i + 1) + "f(fn do" for i in range(d)]
@@ -81,7 +90,7 @@ def _nested_calls(d, err=False):
 
 # calls with function-literal arguments nested in statement position (exponential up to /repo 356c2fa: the statement
 # probe parsed everything twice), and lists that the parser used to walk by recursion per item (debug build)
-NASTY += [_nested_calls(40), _nested_calls(40, True), _nested_calls(12), _nested_calls(12, True),
+NASTY += [closure_chain(6), closure_chain(24), closure_chain(60), _nested_calls(40), _nested_calls(40, True), _nested_calls(12), _nested_calls(12, True),
           "E :: enum\n" + "".join("  V%d int\n" % i for i in range(3000)) + "end\nstart :: fn do\nend\n",
           "B :: blob(" + ", ".join("*T%d" % i for i in range(3000)) + ") { }\nstart :: fn do\nend\n"]
 
@@ -349,6 +358,8 @@ def deep_witness(w):
         return "E :: enum\n" + "".join("    V%d,\n" % i for i in range(n)) + "end\nstart :: fn do end\n"
     if w.get("shape") == "sum":
         return "start :: fn do\n  x := " + " + ".join(["1"] * n) + "\nend\n"
+    if w.get("shape") == "closure-chain":
+        return closure_chain(n)
     return "start :: fn do\n  x := " + "(" * n + "1" + ")" * n + "\nend\n"
 
 
@@ -385,12 +396,16 @@ def replay_known(ctx, kf):
     with tempfile.TemporaryDirectory(dir=os.path.join(vlib.BUILD, "tmp")) as td:
         src = os.path.join(td, "deep.sy")
         open(src, "w").write(deep_witness(w))
-        slow = w.get("shape") in ("dag-tuple", "nested-callbacks")
+        slow = w.get("shape") in ("dag-tuple", "nested-callbacks", "closure-chain")
         import time as _t
         t0 = _t.time()
         try:
+            def small_limit():
+                import resource
+                resource.setrlimit(resource.RLIMIT_AS, (3 << 30, 3 << 30))
+            # the exponential witnesses need many GiB: under a 3 GiB address-space limit they abort within seconds
             p = subprocess.run([exe, "--no-std", "-o", os.path.join(td, "deep.lua"), src], capture_output=True, timeout=20 if slow else 120,
-                               preexec_fn=vlib._limit_memory)
+                               preexec_fn=small_limit if slow else vlib._limit_memory)
         except subprocess.TimeoutExpired:
             return True
         if slow:
